@@ -493,6 +493,13 @@ impl Configuration {
     }
 }
 
+#[cfg(feature = "verif-hooks")]
+impl Configuration {
+    pub(crate) fn verif_snapshot(&self) -> crate::verif::RegionSnapshot {
+        region_dispatch!(self, verif_snapshot)
+    }
+}
+
 macro_rules! from_region {
     ($r:tt) => {
         impl From<$r> for Configuration {
